@@ -90,7 +90,13 @@ type Run struct {
 	Calls  []*CallRec       `json:"calls"`
 	Snaps  []Snap           `json:"snaps"`
 	Events []map[string]any `json:"events"` // Call / Post / State / Return in recorder order
+	// Runaway: a caller sent more requests than any admissible pacing allows (scripts are finite and the only
+	// infinite tail is 503, which is paced by at least the 1 s back-off): the scripted server ended the submission
+	// with a non-retryable status so that a retry loop that never waits cannot exhaust time and memory.
+	Runaway string `json:"runaway"`
 }
+
+const maxPostsPerCall = 3000
 
 type ctxKey struct{}
 
@@ -194,6 +200,14 @@ func (w *world) RoundTrip(req *http.Request) (*http.Response, error) {
 		sp = RespSpec{Cls: "other", Code: 410, Var: "script-exhausted"}
 	}
 	cs.next++
+	if cs.next > maxPostsPerCall {
+		w.mu.Lock()
+		if w.run.Runaway == "" {
+			w.run.Runaway = fmt.Sprintf("caller %d sent %d requests by virtual time %d ms (last scripted class %s)", cs.caller, cs.next, w.ms(), sp.Cls)
+		}
+		w.mu.Unlock()
+		return mkResp(req, 410, nil, bytes.NewReader([]byte("harness: runaway retry loop stopped"))), nil
+	}
 	code := sp.Code
 	if code == 0 {
 		code = defaultCode(sp.Cls)
